@@ -586,6 +586,12 @@ func (rt *runtime) convertCallParameter(v Value, t reflect.Type) (reflect.Value,
 
 				rv, err := v.Call(nullValue, l...)
 				if err != nil {
+					var oe *Error
+					if !errors.As(err, &oe) {
+						// The callback threw a primitive ("boom", 1, null): catchPanic made a
+						// plain Go error of it, which nothing up the stack recognises.
+						panic(rt.panicTypeError("uncaught exception in callback: %s", err))
+					}
 					panic(err)
 				}
 
@@ -776,6 +782,10 @@ func (rt *runtime) toValue(value interface{}) Value {
 			typ := val.Type()
 
 			return objectValue(rt.newNativeFunction(name, file, line, func(c FunctionCall) Value {
+				if val.IsNil() {
+					panic(rt.panicTypeError("call of nil Go function (%s)", typ))
+				}
+
 				nargs := typ.NumIn()
 
 				if len(c.ArgumentList) != nargs {
